@@ -120,9 +120,7 @@ func (hb *HaltBlocks) get(height uint64) *Model {
 	haltBlock.height = height
 	haltBlock.markDirty = hb.markDirty
 
-	hb.setToMap(height, haltBlock)
-
-	return haltBlock
+	return hb.setToMapIfAbsent(height, haltBlock)
 }
 
 func (hb *HaltBlocks) markDirty(height uint64) {
@@ -213,6 +211,20 @@ func (hb *HaltBlocks) setToMap(height uint64, model *Model) {
 	defer hb.lock.Unlock()
 
 	hb.list[height] = model
+}
+
+// setToMapIfAbsent caches a model that was just loaded from the tree and returns the cached one: a
+// concurrent read-only query must not replace the model block execution is already working on.
+func (hb *HaltBlocks) setToMapIfAbsent(height uint64, model *Model) *Model {
+	hb.lock.Lock()
+	defer hb.lock.Unlock()
+
+	if cached := hb.list[height]; cached != nil {
+		return cached
+	}
+
+	hb.list[height] = model
+	return model
 }
 
 func getPath(height uint64) []byte {
